@@ -58,14 +58,15 @@ def run(prog, rep):
         rep.rule(r, t)
     consts, longs = readme_lists()
     import tokrules as TR
-    tk = prog.lib_fn(TOK + "try_tokenize_recursive")
+    import workers
+    tk = workers.tokenizer_main(prog)
     if tk is None:
         rep.unresolved("C08-R1", "tokenizer", "", "tokenizer not found")
         return
     rep.functions.add(tk.qual)
     TR.check_long_short(prog, rep, "C08-R1", sorted(longs) if longs else None)
     rep.floor("C08-R1", 5)
-    eng = terms.Engine(prog, inline=True, hooks=E.Hooks([TOK], opaque_names=[TOK + "try_tokenize_recursive"]))
+    eng = terms.Engine(prog, inline=True, hooks=E.Hooks([TOK], opaque_names=[workers.tokenizer_main_path(prog)]))
     s = eng.summary(tk)
     # ---- R2 constants
     term_fn, table = c05.parser_constants(prog)
@@ -87,7 +88,7 @@ def run(prog, rep):
         good = len(toks) == 1 and TR.T.token_kind(toks[0][0]) == ("Tokens", None)
         if good:
             inner = toks[0][0][2][0]
-            good = any(y[0] in ("rec", "call") and isinstance(y[1], str) and y[1].endswith("try_tokenize_recursive") for y in [inner] + list(subterms(inner)))
+            good = any(y[0] in ("rec", "call") and isinstance(y[1], str) and y[1] == workers.tokenizer_main_path(prog) for y in [inner] + list(subterms(inner)))
         rep.check(good, "C08-R3", "tokenizer/group", f"{tk.file}:{tk.line}", "`(` starts a recursively tokenised group",
                   "a parenthesised group is not tokenised by the recursive call")
     else:
